@@ -19,7 +19,7 @@ ChordOk(r) ==
   /\ pk.ok /\ Supported(k) /\ r.i \in 1..7
   \* written on the i-th scale note, in crd's own chord notation (it converts), with the textbook quality
   /\ Len(r.text) >= Len(pn) /\ SubSeq(r.text, 1, Len(pn)) = pn
-  /\ r.convOk /\ ~r.hasBase
+  /\ r.convOk              \* (a bass, if the instance states one, shows in what sounds)
   /\ d.ok /\ d.iv.n = r.i /\ (Size(d.iv) - (NotePitch(note) - NotePitch(ScaleNotes(k)[1]))) % 12 = 0
   \* (the name may be any name crd's dictionary knows the chord by; when it is one of the display symbols of C16's table it
   \* is the right one -- the quality itself is decided by the sound, below)
